@@ -6,7 +6,9 @@
 (*   {e:"lock"|"fill"|"unlock", g, m}  g is inside / fills / leaves the struct-info cache of m       *)
 (*   {e:"ret", g, c, op, cls, res, seq, ref}  call c of g returned res; seq is what the same call    *)
 (*                              returns when run alone; ref # 0: id of the []byte the caller holds   *)
-(*   {e:"look", g, c, now}      the caller re-inspected that []byte later                            *)
+(*   {e:"hand", g, c, op, res, ref}  the call handed the []byte ref (content res) to the caller's hook  *)
+(*                              (UnmarshalJSON): user code holds it until the hook returns (drop)    *)
+(*   {e:"look", g, c, now}      the caller (or its hook, after it yielded) re-inspected that []byte   *)
 (*   {e:"drop", g, c}           the caller called the same package again: it stops holding that []byte *)
 (*   {e:"race", a, b}           the Go race detector reported a data race (top ojg frames a, b)      *)
 (* The events drive the state variables of Concurrency (inst, pc, buf, held, result, reading,        *)
@@ -28,7 +30,7 @@ GMax == 16
 Blank == /\ prog = <<>> /\ k = [g \in 1..GMax |-> 1] /\ pc = [g \in 1..GMax |-> "idle"] /\ inst = [g \in 1..GMax |-> 0]
          /\ free = <<>> /\ nextInst = 1 /\ buf = <<>> /\ val = <<>> /\ held = [g \in 1..GMax |-> {}]
          /\ result = [g \in 1..GMax |-> <<>>] /\ lock = 0 /\ cached = FALSE /\ miss = <<>>
-         /\ reading = {} /\ writing = {} /\ sched = <<>>
+         /\ reading = {} /\ writing = {} /\ gscratch = <<0, 0>> /\ hinst = <<>> /\ sched = <<>>
 
 TraceInit == /\ c = 1 /\ j = 1 /\ Blank
              /\ TLCSet(1, <<>>) /\ TLCSet(2, 0) /\ TLCSet(3, 0) /\ TLCSet(4, 0)
@@ -48,7 +50,7 @@ TIsolationBreaches(hd, bf) == {<<g, x>> \in UNION {{g} \X hd[g] : g \in TG} : x.
 \* judged by earlier events): another goroutine is inside the same map's critical section and one of the two writes
 TNoUnlockedWriteRead(x, rd, wr) == x \in rd \cup wr => \A y \in rd \cup wr : (y[2] = x[2] /\ y[1] # x[1]) => ~(x \in wr \/ y \in wr)
 
-Same == UNCHANGED <<prog, k, free, nextInst, val, lock, cached, miss, sched>>
+Same == UNCHANGED <<prog, k, free, nextInst, val, lock, cached, miss, gscratch, hinst, sched>>
 
 TGet == /\ Ev.e = "get"
         /\ LET in == [inst EXCEPT ![Ev.g] = Ev.i]
@@ -84,6 +86,20 @@ TRet == /\ Ev.e = "ret"
               /\ buf' = bf
               /\ held' = [h \in 1..GMax |-> {x \in hd[h] : <<h, x>> \notin br}]     \* reported once
         /\ Same /\ UNCHANGED <<inst, pc, reading, writing>>
+\* ScratchBegin of the model with Scratch = "released" is the only action that hands a pooled buffer to a hook; the
+\* code is meant to hand out private bytes: the hook holds them (BufferIsolation) until it returns (drop).
+THand == /\ Ev.e = "hand"
+         /\ LET g   == Ev.g
+                tag == <<g, Len(result[g]) + 1>>
+                bf  == IF Ev.ref = 0 THEN buf ELSE (Ev.ref :> tag) @@ buf
+                hd  == IF Ev.ref = 0 THEN held
+                       ELSE [held EXCEPT ![g] = @ \cup {[call |-> Ev.c, ref |-> Ev.ref, tag |-> tag, op |-> Ev.op, text |-> Ev.res]}]
+                br  == TIsolationBreaches(hd, bf)
+                brs == {<<y[2].op, Ev.op>> : y \in br}
+            IN /\ Report(IF br = {} THEN <<>> ELSE LET y == CHOOSE y \in brs : TRUE IN <<Rec("alias", y[1], y[2])>>)
+               /\ buf' = bf
+               /\ held' = [h \in 1..GMax |-> {x \in hd[h] : <<h, x>> \notin br}]
+         /\ Same /\ UNCHANGED <<inst, pc, result, reading, writing>>
 TLook == /\ Ev.e = "look"
          /\ LET hs == {x \in held[Ev.g] : x.call = Ev.c} IN
             IF hs = {} THEN Report(<<>>) /\ UNCHANGED held
@@ -103,14 +119,14 @@ TRace == /\ Ev.e = "race"
          /\ Same /\ UNCHANGED <<inst, pc, buf, held, result, reading, writing>>
 
 TStep == /\ c <= NT /\ j <= Len(TraceLog[c].ev)
-         /\ (TGet \/ TPut \/ TCache \/ TRet \/ TLook \/ TDrop \/ TRace)
+         /\ (TGet \/ TPut \/ TCache \/ TRet \/ THand \/ TLook \/ TDrop \/ TRace)
          /\ j' = j + 1 /\ UNCHANGED c
 TEnd == /\ c <= NT /\ j > Len(TraceLog[c].ev)
         /\ c' = c + 1 /\ j' = 1
         /\ prog' = <<>> /\ k' = k /\ pc' = [g \in 1..GMax |-> "idle"] /\ inst' = [g \in 1..GMax |-> 0]
         /\ free' = <<>> /\ nextInst' = 1 /\ buf' = <<>> /\ val' = <<>> /\ held' = [g \in 1..GMax |-> {}]
         /\ result' = [g \in 1..GMax |-> <<>>] /\ lock' = 0 /\ cached' = FALSE /\ miss' = <<>>
-        /\ reading' = {} /\ writing' = {} /\ sched' = <<>>
+        /\ reading' = {} /\ writing' = {} /\ gscratch' = <<0, 0>> /\ hinst' = <<>> /\ sched' = <<>>
         /\ TLCSet(2, c)
 
 TraceNext == TStep \/ TEnd
